@@ -57,6 +57,20 @@ MEM = {("Point", "Line"), ("Point", "HalfLine"), ("Point", "Segment"), ("Point",
 DIST = {frozenset(("Point",)), frozenset(("Point", "Line")), frozenset(("Line",)), frozenset(("Point", "Plane")), frozenset(("Line", "Plane"))}
 
 
+class Raised(Exception):
+    """a library call that must not raise did: the event is logged and the session ends there (its state is undefined afterwards)"""
+
+
+def guarded(ev, what, i, f):
+    try:
+        return f()
+    except (OutOfDomain, Unsnappable):
+        raise
+    except Exception as e:  # noqa: BLE001
+        ev.append({"ev": "raised", "what": what, "id": i + 1, "cls": type(e).__name__})
+        raise Raised()
+
+
 def session(rng):
     ev = [{"ev": "reset"}]
     objs, kinds = [], []
@@ -82,20 +96,20 @@ def session(rng):
                 # a new live object derived from a live one: -polygon, or the kept return value of move (owning kinds only)
                 derived += 1
                 if kinds[i] == "Polygon" and rng.random() < 0.5:
-                    new = -objs[i]
+                    new = guarded(ev, "neg", i, lambda: -objs[i])
                     ev.append({"ev": "neg", "id": i + 1, "obj": abstract(new, False)})
                 else:
                     d = [rng.randint(-1, 1), rng.randint(-1, 1), rng.randint(-1, 1)]
-                    new = objs[i].move(Vector(*[float(x) for x in d]))
+                    new = guarded(ev, "move", i, lambda: objs[i].move(Vector(*[float(x) for x in d])))
                     ev.append({"ev": "movekeep", "id": i + 1, "v": [x * recorder.SCALE for x in d], "post": abstract(objs[i], False), "ret": abstract(new, False)})
                 objs.append(new)
                 kinds.append(kinds[i])
             elif r < 0.3:
                 d = [rng.randint(-1, 1), rng.randint(-1, 1), rng.randint(-1, 1)]
-                ret = objs[i].move(Vector(*[float(x) for x in d]))
+                ret = guarded(ev, "move", i, lambda: objs[i].move(Vector(*[float(x) for x in d])))
                 ev.append({"ev": "move", "id": i + 1, "v": [x * recorder.SCALE for x in d], "post": abstract(objs[i], False), "ret": abstract(ret, False)})
             elif r < 0.4 and len(objs) < 6:
-                c = copy.deepcopy(objs[i])
+                c = guarded(ev, "copy", i, lambda: copy.deepcopy(objs[i]))
                 objs.append(c)
                 kinds.append(kinds[i])
                 ev.append({"ev": "copy", "id": i + 1, "obj": abstract(c, False)})
@@ -109,18 +123,31 @@ def session(rng):
                 ev.append({"ev": "query", "op": "intersection", "i": i + 1, "j": j + 1, "res": res})
             elif r < 0.82:
                 if (kinds[i], kinds[j]) in MEM:
-                    val = objs[i] in objs[j]
+                    try:
+                        val = objs[i] in objs[j]
+                    except Exception as e:  # noqa: BLE001
+                        val = e
                     ev.append({"ev": "query", "op": "in", "i": i + 1, "j": j + 1, "res": {"k": "Bool", "b": val} if isinstance(val, bool) else {"k": "Other"}})
             elif r < 0.92:
                 if frozenset((kinds[i], kinds[j])) in DIST:
-                    dd = distance(objs[i], objs[j])
-                    ev.append({"ev": "query", "op": "distance", "i": i + 1, "j": j + 1, "res": {"k": "Num2", "q": rat(float(dd) ** 2, 2)}})
+                    try:
+                        res = {"k": "Num2", "q": rat(float(distance(objs[i], objs[j])) ** 2, 2)}
+                    except (OutOfDomain, Unsnappable):
+                        raise
+                    except Exception as e:  # noqa: BLE001
+                        res = {"k": "Exception", "cls": type(e).__name__}
+                    ev.append({"ev": "query", "op": "distance", "i": i + 1, "j": j + 1, "res": res})
             else:
                 if kinds[i] == kinds[j]:
-                    val = objs[i] == objs[j]
-                    ev.append({"ev": "query", "op": "eq", "i": i + 1, "j": j + 1, "res": {"k": "Bool", "b": bool(val)}})
+                    try:
+                        res = {"k": "Bool", "b": bool(objs[i] == objs[j])}
+                    except Exception as e:  # noqa: BLE001
+                        res = {"k": "Exception", "cls": type(e).__name__}
+                    ev.append({"ev": "query", "op": "eq", "i": i + 1, "j": j + 1, "res": res})
         except (OutOfDomain, Unsnappable):
             return None                      # a result outside the representable domain: drop the whole session (counted by the caller)
+        except Raised:
+            return ev                        # the session ends at the logged exception
     try:
         for n, o in enumerate(objs):
             ev.append({"ev": "snap", "id": n + 1, "obj": abstract(o, False)})
